@@ -26,6 +26,8 @@ O_SPLIT = 'SPLIT_TICKET::ensures.None_iff_zero_part_or_wrong_sum'
 O_TICKET = 'TICKET::ensures.None_iff_amount_zero'
 O_REF = 'C20::ensures.step_matches_reference'
 O_BUILD = 'C20::requires.state_is_representable'
+O_FORGE = 'C20::ensures.no_ticket_out_of_a_literal_or_of_bytes(PUSH / UNPACK of a type holding a ticket)'
+O_ZERO_LIT = 'C20::ensures.no_ticket_of_amount_zero[ticket literal in a parameter / storage value]'
 
 TN, TS = M.ticket(M.NAT), M.ticket(M.STRING)
 PNN = M.pair(M.NAT, M.NAT)
@@ -42,17 +44,86 @@ INITIAL = [
     ((TS, tk(A, 'x', 2)), (PNN, (1, 1))),
     (),
     ((M.pair(TN, TN), (tk(A, 5, 1), tk(A, 5, 2))), (M.option(TN), ('Some', tk(A, 5, 9))), (M.lst(TN), (tk(A, 5, 1),))),
+    # widened: tickets that arrive inside a map value and inside an `or` (parameter / storage literals), next to a plain one
+    ((('map', M.NAT, TN), ((1, tk(A, 5, 2)), (4, tk(B, 5, 1)))), (('or', TN, M.NAT), ('Left', tk(A, 5, 1))), (TN, tk(A, 5, 4))),
 ]
 
 DIP_BODIES = [('DROP',), ('SWAP',), ('PAIR',), ('UNPAIR',), ('READ_TICKET',), ('JOIN_TICKETS',), ('TICKET',), ('DUP',)]
 ALPHABET = ([('TICKET',), ('READ_TICKET',), ('SPLIT_TICKET',), ('JOIN_TICKETS',), ('PAIR',), ('UNPAIR',), ('CAR',), ('CDR',), ('SWAP',), ('DROP',),
-             ('DUP',), ('DUP', 2), ('SOME',), ('IF_NONE', (), (('DROP',),)), ('IF_NONE', (('UNIT',), ('FAILWITH',)), ()),
+             ('DUP',), ('DUP', 2), ('DUP', 3), ('DIG', 2), ('DUG', 2), ('SOME',), ('IF_NONE', (), (('DROP',),)), ('IF_NONE', (('UNIT',), ('FAILWITH',)), ()),
              ('NIL', TN), ('CONS',),
              ('PUSH', M.NAT, 0), ('PUSH', M.NAT, 2), ('PUSH', M.NAT, 5),
              ('PUSH', PNN, (1, 2)), ('PUSH', PNN, (0, 3)), ('PUSH', PNN, (3, 4))]
             + [('DIP', (b,)) for b in DIP_BODIES])
 
 MAX_DEPTH, MAX_TYPE = 4, 8
+
+# Widened: every ticket on a stack used to come from TICKET or from the initial stack.  The total per (ticketer, contents) may
+# change ONLY through TICKET, so no other instruction may materialise a ticket: PUSH of a type that holds a ticket must be
+# refused (tickets are not pushable) and UNPACK to such a type must not yield a ticket (not packable), however deep the
+# ticket sits.  Probes: (instruction, type, value); the value is a ticket of another contract with amount 3.
+_TKV = tk(A, 5, 3)
+MAP_TN, OR_TN = ('map', M.NAT, TN), ('or', TN, M.NAT)
+FORGE_TYPES = [(TN, _TKV), (M.option(TN), ('Some', _TKV)), (M.pair(M.NAT, TN), (1, _TKV)), (M.lst(TN), (_TKV,)),
+               (M.pair(M.NAT, M.option(TN)), (1, ('Some', _TKV))), (M.option(M.pair(TN, M.NAT)), ('Some', (_TKV, 1))),
+               (MAP_TN, ((1, _TKV),)), (OR_TN, ('Left', _TKV)), (M.lst(M.pair(M.NAT, M.option(TN))), ((1, ('Some', _TKV)),))]
+
+# CANDIDATE_DEFECT (unchanged tree, reproduced natively, reported, NOT registered): a ticket literal with amount 0 inside a
+# parameter / storage / initial-stack value (`Pair "KT1.." 5 0` read as `ticket nat`) is accepted by TicketType.from_micheline_value,
+# i.e. a ticket of amount zero is produced; the protocol refuses it (Forbidden_zero_ticket_quantity).  Runs only with the flag.
+RUN_CANDIDATE_DEFECTS = False
+
+
+def real_tickets(it, out=None):
+    """every TicketType instance reachable inside a real stack value"""
+    from pytezos.michelson.types import TicketType
+    from pytezos.michelson.types.base import MichelsonType
+    out = [] if out is None else out
+    if isinstance(it, TicketType):
+        out.append(it)
+    elif isinstance(it, (list, tuple)):
+        for x in it:
+            real_tickets(x, out)
+    elif isinstance(it, MichelsonType):
+        for a in ('item', 'items'):
+            v = getattr(it, a, None)
+            if v is not None:
+                real_tickets(v, out)
+    return out
+
+
+def eval_forge(case):
+    from pytezos.context.impl import ExecutionContext
+    from pytezos.michelson.forge import forge_micheline
+    from pytezos.michelson.micheline import MichelsonRuntimeError
+    from pytezos.michelson.sections import CodeSection
+    from pytezos.michelson.stack import MichelsonStack
+    how = case['how']
+    t, v = FORGE_TYPES[case['i']]
+    val = M.val_expr(t, v)
+    if how == 'zero-literal':
+        zt = ('T', A, 5, 0)
+        try:
+            got = _real_type(TN).from_micheline_value(M.val_expr(TN, zt))
+        except Exception:  # noqa
+            return [_res(O_ZERO_LIT, True)]
+        return [_res(O_ZERO_LIT, False, f'the literal {M.val_text(TN, zt)} is read as a ticket of amount {got.amount}', 'zero ticket literal accepted')]
+    if how == 'PUSH':
+        prog = [{'prim': 'PUSH', 'args': [M.ty_expr(t), val]}]
+        text = f'PUSH {M.ty_text(t)} <literal holding a ticket of amount 3>'
+    else:
+        packed = b'\x05' + forge_micheline(val)
+        prog = [{'prim': 'PUSH', 'args': [{'prim': 'bytes'}, {'bytes': packed.hex()}]}, {'prim': 'UNPACK', 'args': [M.ty_expr(t)]}]
+        text = f'PUSH bytes 0x{packed.hex()[:24]}.. ; UNPACK {M.ty_text(t)}'
+    st = MichelsonStack()
+    try:
+        CodeSection.match(prog).args[0].execute(st, [], ExecutionContext(address=SELF))
+    except MichelsonRuntimeError:
+        return [_res(O_FORGE, True)]
+    found = real_tickets(list(st.items))
+    if how == 'PUSH':
+        return [_res(O_FORGE, False, f'`{text}` is accepted (tickets are not pushable); {len(found)} ticket(s) on the stack out of nothing', f'PUSH accepted {t[0]}')]
+    return [_res(O_FORGE, not found, f'`{text}` leaves {len(found)} ticket(s) on the stack (amount {found[0].amount if found else 0}) without TICKET', f'UNPACK forged {t[0]}')]
 
 
 def tsize(t):
@@ -171,6 +242,10 @@ def read_value(t, it):
         return None if it.is_none() else ('Some', read_value(t[1], it.get_some()))
     if k == 'list':
         return tuple(read_value(t[1], x) for x in it)
+    if k == 'map':
+        return tuple((read_value(t[1], a), read_value(t[2], b)) for a, b in it)
+    if k == 'or':
+        return ('Left', read_value(t[1], it.resolve())) if it.is_left() else ('Right', read_value(t[2], it.resolve()))
     raise KeyError(k)
 
 
@@ -341,6 +416,8 @@ def check_step(S, ins, st=None):
 
 
 def eval_case(case):
+    if case['k'] == 'forge':
+        return eval_forge(case)
     if case['k'] == 'step':
         rs, _ = check_step(from_json(case['S']), from_json(case['ins']))
         return rs
@@ -401,5 +478,9 @@ def enumerate_cases(tier, seed=0):
             prog.append(ins)
         walks.append(dict(k='walk', S=to_json(S0), prog=to_json(tuple(prog))))
     cases += walks
-    info.update(max_len=L, frontier_cap=cap, step_cases=len(pairs), walks=len(walks), walk_len=L + 2)
+    forge = [dict(k='forge', how=how, i=i) for how in ('PUSH', 'UNPACK') for i in range(len(FORGE_TYPES))]
+    if RUN_CANDIDATE_DEFECTS:
+        forge.append(dict(k='forge', how='zero-literal', i=0))
+    cases += forge
+    info.update(max_len=L, frontier_cap=cap, step_cases=len(pairs), walks=len(walks), walk_len=L + 2, forge_probes=len(forge))
     return [cases[i:i + 500] for i in range(0, len(cases), 500)], info
